@@ -293,6 +293,30 @@ fn reads(map: &Map, key: &MasterKey, tpe: u8, id: &Id, blobs: &[(bool, Id)]) -> 
                 })
                 .collect()
         }
+        // snapshot files are also read by the listing calls, index files by loading the index
+        3 => vec![
+            scn::guard(|| scn::open(&h, key)?.cat_file(tfrom(3), id.to_hex().as_str())),
+            scn::guard(|| {
+                let mut v: Vec<String> = scn::open(&h, key)?.get_all_snapshots()?.iter().map(|s| format!("{}:{}", s.id, s.tree)).collect();
+                v.sort();
+                Ok(Bytes::from(v.join(",")))
+            }),
+        ],
+        1 => vec![
+            scn::guard(|| scn::open(&h, key)?.cat_file(tfrom(1), id.to_hex().as_str())),
+            scn::guard(|| {
+                let r = scn::open(&h, key)?.to_indexed()?;
+                let mut v: Vec<String> = blobs
+                    .iter()
+                    .map(|(tree, bid)| {
+                        let tp = if *tree { rustic_core::repofile::BlobType::Tree } else { rustic_core::repofile::BlobType::Data };
+                        format!("{bid}:{}", r.cat_blob(tp, bid.to_hex().as_str()).map_or_else(|_| "unreadable".to_string(), |b| b.len().to_string()))
+                    })
+                    .collect();
+                v.sort();
+                Ok(Bytes::from(v.join(",")))
+            }),
+        ],
         t => vec![scn::guard(|| scn::open(&h, key)?.cat_file(tfrom(t), id.to_hex().as_str()))],
     }
 }
@@ -385,6 +409,12 @@ pub fn run_store(a: &Args) {
                 let h = p.hdr.unwrap_or_default();
                 let hl = u32::from_le_bytes(data[len - 4..].try_into().unwrap()) as usize;
                 (h.iter().map(|x| (x.off, x.len)).collect(), h.iter().map(|x| (x.tree, x.id)).collect(), len - 4 - hl)
+            } else if *t == 1 {
+                // the blobs this index file lists: loading the index must give them all, or fail
+                let bl = crate::abs::parse_index(&rk, *id, data)
+                    .map(|ix| ix.packs.iter().filter(|p| !p.marked).flat_map(|p| p.blobs.iter().map(|x| (x.tree, x.id))).take(12).collect())
+                    .unwrap_or_default();
+                (vec![], bl, 0)
             } else {
                 (vec![], vec![], 0)
             };
